@@ -947,7 +947,8 @@ ROLETYPES = ["text", "explicit_title", {"link": "https://x/%s"}, {"link": "https
 def gen_spec_case(rng):
     cat = rng.choice(["directive", "directive", "role", "rstobject"])
     nkeys = rng.randint(1, 6)
-    keys = rng.sample(["a", "b", "c", "d", "e", "f", "mongodb:g", "std:h"], nkeys)
+    # "" is a legal TOML key and a legal parent name: falsy, so a truthiness test would skip it
+    keys = rng.sample(["a", "b", "c", "d", "e", "f", "mongodb:g", "std:h", ""], nkeys)
     style = rng.choice(["acyclic", "acyclic", "any", "any", "chain"])
     entries = []
     for i, k in enumerate(keys):
@@ -963,7 +964,7 @@ def gen_spec_case(rng):
             if r < 0.6:
                 e["inherit"] = rng.choice(keys)
             elif r < 0.7:
-                e["inherit"] = "ghost"
+                e["inherit"] = rng.choice(["ghost", ""])
         if rng.random() < 0.5:
             e["help"] = rng.choice(["h1", "h2", ""])
         if rng.random() < 0.3:
@@ -1545,6 +1546,8 @@ class C16(core.PropertyCheck):
                         got = post[e["key"]]
                         if got["inherit"] != e["inherit"]:
                             return f"inherit of {e['key']} changed by resolution"
+                        if e["inherit"] is not None and e["inherit"] not in post:
+                            return f"entry {e['key']!r} inherits from {e['inherit']!r}, which does not exist, but the spec was accepted"
                         for i, own in enumerate(e["fields"]):
                             want = own if (own is not None or e["inherit"] is None) else post[e["inherit"]]["fields"][i]
                             if got["fields"][i] != want:
